@@ -164,7 +164,8 @@ class Neo4jPropertyGraph(ABCPropertyGraph):
         assert prop_name is not None
         _, node_props = self.get_node_properties(node_id=node_id)
         prop_str = node_props.get(prop_name, None)
-        if prop_str is None or prop_str == self.NEO4j_NONE:
+        # a property blanked to '' (what un-merging leaves where it cannot unset) is not set either
+        if prop_str is None or prop_str == self.NEO4j_NONE or prop_str == '':
             return None
         try:
             prop_val = json.loads(prop_str)
